@@ -43,6 +43,8 @@ type emitter struct {
 	every, seen int
 	onlyKinds   map[string]bool
 	streamPrefix string
+	inDrop       bool
+	dropSeen     int
 }
 
 func newEmitter(path, prop string, seed int64) *emitter {
@@ -80,7 +82,27 @@ func (e *emitter) emit(c *Case) {
 	}
 	e.w.Write(b)
 	e.w.WriteByte('\n')
+	// attribute defaults: every few operator cases are repeated with ONE attribute left out (the
+	// operator must then behave as ONNX's default for it prescribes, or refuse a required attribute)
+	if c.Kind == "op" && len(c.Attrs) >= 1 && c.Share == nil && inputLayout == "" && !e.inDrop && e.every <= 1 {
+		e.dropSeen++
+		if e.dropSeen%attrDropEvery == 0 {
+			e.inDrop = true
+			for i := range c.Attrs {
+				attrs := append(append([]Attr{}, c.Attrs[:i]...), c.Attrs[i+1:]...)
+				v := &Case{Kind: "op", Stream: c.Stream + "~attr-dropped", Op: c.Op, Attrs: attrs, Inputs: c.Inputs, Outputs: c.Outputs}
+				if (c.Op == "Softmax" || c.Op == "LogSoftmax") && c.P != nil {
+					v.P = map[string]any{"props": true, "axis": -1} // the default axis
+				}
+				v.Impl = runOp(c.Op, attrs, c.Inputs, c.Outputs)
+				e.emit(v)
+			}
+			e.inDrop = false
+		}
+	}
 }
+
+var attrDropEvery = 5
 
 func (e *emitter) close() { e.w.Flush() }
 
